@@ -1,4 +1,4 @@
-import FeatherModel.Lemmas.ClassReadTables
+import FeatherModel.Lemmas.ClassReadFramesSM
 
 /-! C01 lemmas: the attribute loop of `read_code` on the attributes of the proved fragment. -/
 
@@ -27,10 +27,15 @@ def localsRaw (lf : Labels) (pos : Nat → Nat) : List SCodeAttr → Option (Lis
 
 /-- the offsets an attribute of the fragment refers to -/
 def attrRefs (pos : Nat → Nat) : SCodeAttr → List Nat
+  | .frames _ fs => fs.flatMap (fun f => f.kind.refs pos ++ [pos f.at_])
   | .lines _ es => es.flatMap (fun e => [pos e.1])
   | .lvt _ es => es.flatMap (fun v => [pos v.start, pos v.end_])
   | .lvtt _ es => es.flatMap (fun v => [pos v.start, pos v.end_])
   | .unknown _ _ _ => []
+
+def isFramesAttr : SCodeAttr → Bool
+  | .frames _ _ => true
+  | _ => false
 
 theorem sum_map_const {α : Type} (k : Nat) (xs : List α) : (xs.map (fun _ => k)).sum = k * xs.length := by
   induction xs with
@@ -50,15 +55,30 @@ theorem ne_lvtt : sLocalVariableTypeTable ≠ sStackMapTable ∧ sLocalVariableT
 
 /-- what one attribute of the fragment does to the loop state -/
 theorem readCodeAttr_ok (p : Pool) (pos : Nat → Nat) (n cl : Nat) (hp : PosOk pos n cl)
-    (hmono : ∀ a b, a ≤ b → b ≤ n → pos a ≤ pos b) (a : SCodeAttr) (ha : a.Legal p n)
+    (hmono : ∀ a b, a ≤ b → b ≤ n → pos a ≤ pos b) (a : SCodeAttr) (ha : a.Legal p n pos)
+    (hmonoS : ∀ a b, a < b → b ≤ n → pos a < pos b)
     (st : CodeAttrState) (r : Bytes) (hwf : st.labels.WF) (hcl : st.labels.codeLength = cl)
-    (hcnt : st.labels.count + a.labelRefs < 65536) :
+    (hcnt : st.labels.count + a.labelRefs < 65536) (hfr : isFramesAttr a = true → st.frames = none) :
     ∃ st', readCodeAttr p st (a.encode pos ++ r) = ok (st', r) ∧ st'.labels.WF ∧ Labels.Le st.labels st'.labels ∧
-      st'.labels.count ≤ st.labels.count + a.labelRefs ∧ st'.frames = st.frames ∧ st'.rvta = st.rvta ∧ st'.ritva = st.ritva ∧
+      st'.labels.count ≤ st.labels.count + a.labelRefs ∧ st'.rvta = st.rvta ∧ st'.ritva = st.ritva ∧
       st'.attrs = st.attrs ++ unknownsOf [a] ∧ (∀ pc ∈ attrRefs pos a, (st'.labels.get pc).isSome = true) ∧
       ∀ lf, Labels.Le st'.labels lf →
-        st'.lines = appendOpt st.lines (linesRaw lf pos [a]) ∧ st'.locals = appendOpt st.locals (localsRaw lf pos [a]) := by
+        st'.lines = appendOpt st.lines (linesRaw lf pos [a]) ∧ st'.locals = appendOpt st.locals (localsRaw lf pos [a]) ∧
+        st'.frames = (match a with | .frames _ fs => some (framesRaw lf pos fs) | _ => st.frames) := by
   cases a with
+  | frames nc fs =>
+    obtain ⟨hnc, hname, hlen, hfl, hbody⟩ := ha
+    have hnone := hfr rfl
+    obtain ⟨v, l', h1, hwf', hle', hc', hr', hv'⟩ := readFrames_ok p pos n cl hp hmonoS fs none hfl st.labels r hwf hcl
+      (by simpa [SCodeAttr.labelRefs] using hcnt)
+    simp only [Option.isNone_none, prevOff, Option.map_none] at h1
+    refine ⟨{ st with labels := l', frames := some v }, ?_, hwf', hle', by simpa [SCodeAttr.labelRefs] using hc', rfl, rfl,
+      by simp [unknownsOf], hr', ?_⟩
+    · simp only [readCodeAttr, SCodeAttr.encode, attrFrame, List.append_assoc, u16_be16 _ hnc, ok_bind, hname,
+        u32_be32 _ hbody, if_true, u16_be16 _ hlen, h1, hnone, insertIfEmpty, pure_eq]
+    · intro lf hlf
+      have := hv' lf hlf
+      simp [appendOpt, linesRaw, localsRaw, this, framesRaw]
   | lines nc es =>
     obtain ⟨hnc, hname, hlen, hes⟩ := ha
     have hbody : (be16 es.length ++ es.flatMap (fun e => be16 (pos e.1) ++ be16 e.2)).length < 4294967296 := by
@@ -72,7 +92,7 @@ theorem readCodeAttr_ok (p : Pool) (pos : Nat → Nat) (n cl : Nat) (hp : PosOk 
         simpa [List.append_assoc] using this)
       st.labels hwf hcl (by rw [hk]; simpa [SCodeAttr.labelRefs] using hcnt) r
     refine ⟨{ st with labels := l', lines := some (st.lines.getD [] ++ v) }, ?_, hwf', hle',
-      by rw [hk] at hc'; simpa [SCodeAttr.labelRefs] using hc', rfl, rfl, rfl, by simp [unknownsOf], hr', ?_⟩
+      by rw [hk] at hc'; simpa [SCodeAttr.labelRefs] using hc', rfl, rfl, by simp [unknownsOf], hr', ?_⟩
     · simp only [readCodeAttr, SCodeAttr.encode, attrFrame, List.append_assoc, u16_be16 _ hnc, ok_bind, hname,
         u32_be32 _ hbody, ne_lines.1, ne_lines.2, if_false, if_true, u16_be16 _ hlen, readLines, h1, pure_eq]
     · intro lf hlf
@@ -89,7 +109,7 @@ theorem readCodeAttr_ok (p : Pool) (pos : Nat → Nat) (n cl : Nat) (hp : PosOk 
       (fun e he l r hwf hcl hcnt => readLv_ok p pos n cl hp hmono false e (hes e he) l r hwf hcl hcnt)
       st.labels hwf hcl (by rw [hk]; simpa [SCodeAttr.labelRefs] using hcnt) r
     refine ⟨{ st with labels := l', locals := some (st.locals.getD [] ++ v) }, ?_, hwf', hle',
-      by rw [hk] at hc'; simpa [SCodeAttr.labelRefs] using hc', rfl, rfl, rfl, by simp [unknownsOf], hr', ?_⟩
+      by rw [hk] at hc'; simpa [SCodeAttr.labelRefs] using hc', rfl, rfl, by simp [unknownsOf], hr', ?_⟩
     · simp only [readCodeAttr, SCodeAttr.encode, attrFrame, List.append_assoc, u16_be16 _ hnc, ok_bind, hname,
         u32_be32 _ hbody, ne_lvt.1, ne_lvt.2.1, ne_lvt.2.2, if_false, if_true, u16_be16 _ hlen, h1, pure_eq]
     · intro lf hlf
@@ -106,7 +126,7 @@ theorem readCodeAttr_ok (p : Pool) (pos : Nat → Nat) (n cl : Nat) (hp : PosOk 
       (fun e he l r hwf hcl hcnt => readLv_ok p pos n cl hp hmono true e (hes e he) l r hwf hcl hcnt)
       st.labels hwf hcl (by rw [hk]; simpa [SCodeAttr.labelRefs] using hcnt) r
     refine ⟨{ st with labels := l', locals := some (st.locals.getD [] ++ v) }, ?_, hwf', hle',
-      by rw [hk] at hc'; simpa [SCodeAttr.labelRefs] using hc', rfl, rfl, rfl, by simp [unknownsOf], hr', ?_⟩
+      by rw [hk] at hc'; simpa [SCodeAttr.labelRefs] using hc', rfl, rfl, by simp [unknownsOf], hr', ?_⟩
     · simp only [readCodeAttr, SCodeAttr.encode, attrFrame, List.append_assoc, u16_be16 _ hnc, ok_bind, hname,
         u32_be32 _ hbody, ne_lvtt.1, ne_lvtt.2.1, ne_lvtt.2.2.1, ne_lvtt.2.2.2, if_false, if_true, u16_be16 _ hlen, h1, pure_eq]
     · intro lf hlf
@@ -116,7 +136,7 @@ theorem readCodeAttr_ok (p : Pool) (pos : Nat → Nat) (n cl : Nat) (hp : PosOk 
     obtain ⟨hnc, hname, hnot, hlen⟩ := ha
     simp only [codeAttrNames, List.mem_cons, List.not_mem_nil, or_false, not_or] at hnot
     obtain ⟨n1, n2, n3, n4, n5, n6, n7⟩ := hnot
-    refine ⟨{ st with attrs := st.attrs ++ [⟨name, b⟩] }, ?_, hwf, Labels.Le.refl _, by simp [SCodeAttr.labelRefs], rfl, rfl, rfl,
+    refine ⟨{ st with attrs := st.attrs ++ [⟨name, b⟩] }, ?_, hwf, Labels.Le.refl _, by simp [SCodeAttr.labelRefs], rfl, rfl,
       by simp [unknownsOf], by simp [attrRefs], ?_⟩
     · simp only [readCodeAttr, SCodeAttr.encode, attrFrame, List.append_assoc, u16_be16 _ hnc, ok_bind, hname,
         u32_be32 _ hlen, n1, n2, n3, n4, n5, n6, n7, if_false, takeN_append, pure_eq]
